@@ -18,7 +18,7 @@ for d in sorted(glob.glob("/tmp/mut/out*/C*_*")):
         continue
     dst = os.path.join(ROOT, mid)
     os.makedirs(dst, exist_ok=True)
-    for f in ("patch.diff", "demo.diff", "notes.md"):
+    for f in ("patch.diff", "demo.diff", "notes.md", "patch_adapted_to_repaired_tree.diff"):
         if os.path.exists(os.path.join(d, f)):
             shutil.copy(os.path.join(d, f), os.path.join(dst, f))
     notes = open(os.path.join(d, "notes.md"), errors="replace").read() if os.path.exists(os.path.join(d, "notes.md")) else ""
